@@ -63,7 +63,7 @@ let world_of args =
 
 let render op args =
   match op with
-  | "render" | "text" | "frags" | "recursion" -> Some (show_obs (api_render_string (world_of args) (arg args 0) (parse_ctx (argd args 1))))
+  | "render" | "text" | "frags" | "recursion" | "validate" | "spaceless" -> Some (show_obs (api_render_string (world_of args) (arg args 0) (parse_ctx (argd args 1))))
   | "renderfile" -> Some (show_obs (api_render_file (world_of args) (arg args 0) (parse_ctx (argd args 1))))
   | "history" ->
     (* one compiled template executed with several contexts: in the model execution is a
